@@ -89,6 +89,8 @@ def conc(key, kind, k, var=0):
     if kind == "unknown_field":
         return "x%d" % k
     f = KEYS[key][1]
+    if f == "trailers" and var >= 100:
+        return []  # "trailers": [] -- a present but empty trailer block
     if key in ("marked",):
         return ":m%d:" % k
     if key == "comment":
@@ -254,7 +256,13 @@ class Check(core.PropertyCheck):
             tri = gen_docs(Q_VALID[:3], Q_INVALID[:5], 3)
             tri = [d for d in tri if len(d) == 3 and sum(e[1] != "valid" for e in d) == 1]
             rng.shuffle(tri)
-            return docs + tri[:24]
+            trailer_docs = [(("req_trailers", "valid"),), (("resp_trailers", "valid"),),
+                            (("req_trailers", "valid"), ("req_port", "malformed_port")),
+                            (("resp_trailers", "valid"), ("resp_code", "malformed_code")),
+                            (("req_trailers", "valid"), ("req_unknown", "unknown_field")),
+                            (("resp_trailers", "valid"), ("top_unknown", "unknown_field")),
+                            (("req_trailers", "malformed_headers"),)]
+            return docs + tri[:24] + trailer_docs
         docs = gen_docs(T_VALID[:6], T_INVALID, 2)
         tri = [d for d in gen_docs(T_VALID[:4], T_INVALID[:8], 3) if len(d) == 3 and sum(e[1] != "valid" for e in d) <= 1]
         rng.shuffle(tri)
@@ -298,13 +306,16 @@ class Check(core.PropertyCheck):
             ctx.rng.shuffle(behs)
             behs = behs[: 1500 if ctx.quick else 12000]
         behs += g.random_walks(ctx.rng, 200 if ctx.quick else 2000, 3)
-        for b in behs:
-            yield core.Scenario({"ops": self._ops(b, rng)}, predicted=core.predicted_events(b), source="model")
+        shapes = ("none", "empty", "some")  # trailer block of the flow at the start (all are "the original value", id 0)
+        for i, b in enumerate(behs):
+            yield core.Scenario({"ops": self._ops(b, rng), "trailers0": shapes[i % 3]},
+                                predicted=core.predicted_events(b), source="model")
         if not ctx.quick:
             sims, _r = ctx.simulate(self.MODEL, self.model_constants("thorough", self._big_docs, 4), num=3000, depth=5,
                                     timeout=1800)
-            for b in sims:
-                yield core.Scenario({"ops": self._ops(b, rng)}, predicted=core.predicted_events(b), source="simulate")
+            for i, b in enumerate(sims):
+                yield core.Scenario({"ops": self._ops(b, rng), "trailers0": shapes[i % 3]},
+                                    predicted=core.predicted_events(b), source="simulate")
         # beyond the model's bounds: all 17 fields, documents of up to 4 updates with the invalid part at every
         # position, every malformed variant, longer histories
         all_valid = list(KEYS)
@@ -319,7 +330,7 @@ class Check(core.PropertyCheck):
                     continue
                 doc = self._random_doc(rng, all_valid, invalid_all, want_invalid=r > 0.4)
                 ops.append(["put", doc])
-            yield core.Scenario({"ops": ops}, source="random")
+            yield core.Scenario({"ops": ops, "trailers0": shapes[i % 3]}, source="random")
         # systematic: each invalid (key, kind, variant) at each position of a 1..4 entry document, fresh and after edit
         count = 0
         for (ikey, ikind) in invalid_all:
@@ -334,7 +345,21 @@ class Check(core.PropertyCheck):
                         doc = self._doc_with(rng, all_valid, ikey, ikind, var, pos)
                         ops = ([["put", self._random_doc(rng, all_valid, invalid_all, want_invalid=False)]] if prior else [])
                         ops.append(["put", doc])
-                        yield core.Scenario({"ops": ops}, source="enumerated")
+                        yield core.Scenario({"ops": ops, "trailers0": shapes[count % 3]}, source="enumerated")
+        # a trailers edit in front of every kind of invalid part, on a flow whose trailer block is absent / present but
+        # empty / non-empty, and after an accepted edit that emptied the block ("trailers": [])
+        for (ikey, ikind) in invalid_all:
+            if ikind == "bad_json":
+                continue
+            for tkey in ("req_trailers", "resp_trailers"):
+                if ikey == tkey or (ikey in ("req_section", "resp_section") and section_of(ikey) == section_of(tkey)):
+                    continue
+                for shape in shapes + ("emptied",):
+                    doc = [[tkey, "valid", 0], [ikey, ikind, rng.randrange(16)]]
+                    ops = [["put", [[tkey, "valid", 100]]]] if shape == "emptied" else []
+                    ops.append(["put", doc])
+                    yield core.Scenario({"ops": ops, "trailers0": "none" if shape == "emptied" else shape},
+                                        source="enumerated")
 
     @staticmethod
     def _order(entries, rng):
@@ -359,7 +384,8 @@ class Check(core.PropertyCheck):
                 return [[ikey, ikind, rng.randrange(16)]]
             return self._doc_with(rng, valid_keys, ikey, ikind, rng.randrange(16), rng.randrange(n))
         keys = rng.sample(valid_keys, n)
-        return [list(e) for e in self._order([[k, "valid", 0] for k in keys], rng)]
+        return [list(e) for e in self._order(
+            [[k, "valid", 100 if k.endswith("trailers") and rng.random() < 0.3 else 0] for k in keys], rng)]
 
     def _doc_with(self, rng, valid_keys, ikey, ikind, var, pos):
         """A document whose invalid entry sits at (about) position pos among valid ones."""
@@ -397,6 +423,12 @@ class Check(core.PropertyCheck):
         drv.set_password(PASSWORD)
         master = drv.master
         flow = tflow.tflow(resp=True)
+        shape = sc.get("trailers0", "none")  # trailer block of both messages at the start: none / empty / some
+        if shape != "none":
+            from mitmproxy import http
+
+            for msg in (flow.request, flow.response):
+                msg.trailers = http.Headers([(b"x-t0", b"zero")] if shape == "some" else [])
 
         async def add():
             master.view.clear()
@@ -410,10 +442,20 @@ class Check(core.PropertyCheck):
         def jd(v):
             return json.dumps(v, sort_keys=True)
 
+        cur: dict[str, int] = {k: 0 for k in KEYS}  # ids of the last snapshot
+        want: dict[str, int] = {}  # ids an all-valid document asks for (to name equal values consistently)
+
         def decode(key, val):
-            if val == original[key]:
-                return 0
-            return used[key].get(jd(val), -1)
+            cands = ([0] if val == original[key] else []) + used[key].get(jd(val), [])
+            if not cands:
+                return -1
+            # equal concrete values can carry several ids (e.g. two edits to an empty trailer list): name the value
+            # like the request that was meant to set it, else like the previous snapshot
+            if want.get(key) in cands:
+                return want[key]
+            if cur[key] in cands:
+                return cur[key]
+            return cands[-1]
 
         def snap():
             o = observe(flow)
@@ -421,7 +463,9 @@ class Check(core.PropertyCheck):
                 mod = bool(flow.modified())
             except Exception:
                 mod = True
-            return ({k: decode(k, o[k]) for k in KEYS}, rest_ids.setdefault(rest_of(flow), len(rest_ids) + 1), mod)
+            ids_ = {k: decode(k, o[k]) for k in KEYS}
+            cur.update(ids_)
+            return (ids_, rest_ids.setdefault(rest_of(flow), len(rest_ids) + 1), mod)
 
         auth = [("Cookie", "_mitmproxy_xsrf=c47tok"), ("X-XSRFToken", "c47tok")]
         trace = []
@@ -442,15 +486,19 @@ class Check(core.PropertyCheck):
                     k = next_v + i
                     if kind in SET_KINDS:
                         ids.append(k)
-                        used[key][jd(conc(key, kind, k, var))] = k
+                        used[key].setdefault(jd(conc(key, kind, k, var)), []).append(k)
                     else:
                         ids.append(-9)
                     doc.append({"key": key, "kind": kind, "v": ids[-1]})
+                want.clear()
+                if all(kind in SET_KINDS for _k, kind, _v in entries):
+                    want.update({key: i_ for (key, _kind, _v), i_ in zip(entries, ids)})
                 body = build_json(entries, [next_v + i for i in range(len(entries))])
                 next_v += len(entries)
                 r = drv.request("PUT", f"/flows/{flow.id}?token={PASSWORD}",
                                 auth + [("Content-Type", "application/json")], body)
                 post, qrest, qmod = snap()
+                want.clear()
                 trace.append({"k": "put", "doc": doc, "status": r.status, "pre": pre, "post": post, "prest": prest,
                               "qrest": qrest, "pmod": pmod, "qmod": qmod})
         finally:
